@@ -112,6 +112,14 @@ class AvroWriter:
                     if u.utcoffset() != _dtm.timedelta(0):
                         raise Unsupported("symbolic non-UTC datetime handed to Avro")
                     stored[f["name"]] = u
+                elif isinstance(u, int) and not isinstance(u, bool):
+                    # a plain long given for the logical type is taken as microseconds since the epoch; readers decode it like any other value
+                    try:
+                        stored[f["name"]] = _dtm.datetime(1970, 1, 1, tzinfo=_dtm.timezone.utc) + _dtm.timedelta(microseconds=u)
+                    except OverflowError as e:
+                        raise PyRaise(e)
+                elif isinstance(u, SInt):
+                    raise Unsupported("symbolic long handed to the Avro timestamp-micros logical type")
         self.buffer.append(stored)
 
     def flush(self):
